@@ -202,12 +202,21 @@ func Decompress(msg []byte) ([]byte, []PtrUse, error) {
 type compressor struct {
 	out   []byte
 	table map[string]int // suffix wire (exact octets) -> offset
+	// memo: a later occurrence of a name points at the latest place the name was written, which
+	// may itself be a pointer (RFC 1035 s.4.1.4 allows "a pointer to a prior occurrence of the same
+	// name"); hops counts the pointers such a target already goes through, kept at most memo.
+	memo int
+	hops map[string]int
 }
 
 func (c *compressor) name(n Name, compress bool) {
 	for i := range n {
 		suf := string(Name(n[i:]).Wire())
 		if off, ok := c.table[suf]; ok && compress {
+			if c.memo > 0 && c.hops[suf] < c.memo && len(c.out) < 0x4000 {
+				c.table[suf] = len(c.out)
+				c.hops[suf]++
+			}
 			c.out = append(c.out, 0xC0|byte(off>>8), byte(off))
 			return
 		}
@@ -223,8 +232,12 @@ func (c *compressor) name(n Name, compress bool) {
 // WireCompressed encodes the message compressing owner and question names and, when allRdata
 // is set, the names inside the RDATA of every type (legal input that decoders must accept);
 // otherwise only RDATA names of the RFC 3597 s.4 set.
-func (m *Msg) WireCompressed(allRdata bool) []byte {
-	c := &compressor{table: map[string]int{}}
+func (m *Msg) WireCompressed(allRdata bool) []byte { return m.WireCompressedMemo(allRdata, 0) }
+
+// WireCompressedMemo is WireCompressed by a sender that remembers where it last wrote a name: with
+// memo > 0 pointers may target earlier pointers, through at most memo further pointers.
+func (m *Msg) WireCompressedMemo(allRdata bool, memo int) []byte {
+	c := &compressor{table: map[string]int{}, memo: memo, hops: map[string]int{}}
 	c.out = make([]byte, 12)
 	binary.BigEndian.PutUint16(c.out[0:], m.ID)
 	binary.BigEndian.PutUint16(c.out[2:], m.Bits)
